@@ -36,15 +36,16 @@ Qed.
 
 (** normalising any range 1..255 gives a range in 128..255 *)
 Lemma norm_range_sweep :
-  forallb (fun r => let '(r2, _) := norm_loop 8 r 0 in (128 <=? r2) && (r2 <=? 255)) (zrange 1 255) = true.
+  forallb (fun r => let '(r2, sh) := norm_loop 8 r 0 in (128 <=? r2) && (r2 <=? 255) && (sh <=? 7)) (zrange 1 255) = true.
 Proof. vm_compute. reflexivity. Qed.
 
-Lemma norm_range r : 1 <= r <= 255 -> 128 <= fst (norm_loop 8 r 0) <= 255.
+Lemma norm_range r : 1 <= r <= 255 ->
+  128 <= fst (norm_loop 8 r 0) <= 255 /\ snd (norm_loop 8 r 0) <= 7.
 Proof.
   intros H.
   pose proof (proj1 (forallb_forall _ _) norm_range_sweep r (in_zrange 1 255 r ltac:(lia) ltac:(lia))) as Hx.
-  cbv beta in Hx. destruct (norm_loop 8 r 0) as [r2 sh]. cbn [fst].
-  apply andb_true_iff in Hx. destruct Hx as [H1 H2]. apply Z.leb_le in H1, H2. lia.
+  cbv beta in Hx. destruct (norm_loop 8 r 0) as [r2 sh]. cbn [fst snd].
+  rewrite !andb_true_iff in Hx. destruct Hx as [[H1 H2] H3]. apply Z.leb_le in H1, H2, H3. lia.
 Qed.
 
 (** * abstract encoder *)
@@ -94,7 +95,7 @@ Proof.
   assert (HR1 : 1 <= R1 <= 255) by (unfold R1; destruct b; lia).
   destruct (norm_loop_spec 8 R1 0) as (t & Ht & Hn).
   exists t. split; [exact Ht|].
-  pose proof (norm_range R1 HR1) as Hr. rewrite Hn in Hr. cbn [fst] in Hr.
+  pose proof (proj1 (norm_range R1 HR1)) as Hr. rewrite Hn in Hr. cbn [fst] in Hr.
   unfold aput. fold R1. rewrite Hn. replace (0 + t) with t by lia.
   repeat split; try lia.
 Qed.
@@ -294,4 +295,94 @@ Proof.
       exists v', c', r'. split.
       * rewrite E1. f_equal. lia.
       * replace (j - (s + 1 + t - s)) with (j - 1 - (s + 1 + t - (s + 1))) by lia. exact E2.
+Qed.
+
+(** one decoded bool *)
+Lemma read_bool_refines d R D j p :
+  drel (bd_value d) (bd_range d) (bd_count d) (bd_rest d) R D j -> 0 <= D ->
+  128 <= R <= 255 -> 0 <= p <= 255 ->
+  let '(b, (R2, D2, j2)) := aget p (R, D, j) in
+  8 <= j2 ->
+  exists d', read_bool p d = (b, d') /\
+    drel (bd_value d') (bd_range d') (bd_count d') (bd_rest d') R2 D2 j2 /\ 0 <= D2 /\
+    128 <= R2 <= 255 /\ j - 7 <= j2.
+Proof.
+  intros Hrel HD0 HR Hp.
+  pose proof (nsplit_bounds R p HR Hp) as Hs.
+  unfold aget. set (s := nsplit R p) in *.
+  assert (Er : bd_range d = R) by (destruct Hrel as (E & _); exact E).
+  pose proof (drel_decision _ _ _ _ _ _ _ s Hrel ltac:(lia)) as Hdec.
+  set (b := s * 2 ^ j <=? D) in *.
+  set (R1 := if b then R - s else s).
+  assert (HR1 : 1 <= R1 <= 255) by (unfold R1; destruct b; lia).
+  destruct (norm_loop 8 R1 0) as [R2 sh] eqn:En.
+  pose proof (norm_range R1 HR1) as [Hr2 Hsh]. rewrite En in Hr2, Hsh. cbn [fst snd] in Hr2, Hsh.
+  destruct (norm_loop_spec 8 R1 0) as (t & Ht & En2). rewrite En in En2. injection En2 as _ Esh.
+  intros Hj2.
+  unfold read_bool. rewrite Er. unfold nsplit in s. fold s. rewrite Hdec.
+  assert (Hrel1 : drel (if b then bd_value d - s * 256 else bd_value d) R1 (bd_count d) (bd_rest d)
+                       R1 (if b then D - s * 2 ^ j else D) j /\ 0 <= (if b then D - s * 2 ^ j else D)).
+  { rewrite Er in Hrel. unfold R1. destruct b eqn:Eb.
+    - apply Z.leb_le in Hdec. unfold b in Eb. apply Z.leb_le in Eb. split; [|lia].
+      apply drel_sub; try assumption; lia.
+    - unfold b in Eb. apply Z.leb_gt in Eb. split; [|lia].
+      eapply drel_range; [exact Hrel|exact Eb]. }
+  destruct Hrel1 as [Hrel1 HD1].
+  destruct (normalize_refines 8 _ R1 (bd_count d) (bd_rest d) (bd_pos d) R1 _ j 0 R2 sh Hrel1 ltac:(lia) En
+              ltac:(lia)) as (v' & c' & rest' & E1 & E2).
+  replace (sh - 0) with sh in * by lia.
+  eexists. split.
+  - destruct b; subst R1; cbv beta iota zeta in E1 |- *; rewrite E1; reflexivity.
+  - cbn [bd_value bd_range bd_count bd_rest]. split; [exact E2|]. split; [exact HD1|]. split; lia.
+Qed.
+
+(** decoding a list of bools with the RFC decoder *)
+Fixpoint rfc_bits (probs : list Z) (d : bdec) : list bool :=
+  match probs with
+  | [] => []
+  | p :: tl => let '(b, d') := read_bool p d in b :: rfc_bits tl d'
+  end.
+
+Theorem rfc_refines_abs : forall probs d R D j,
+  drel (bd_value d) (bd_range d) (bd_count d) (bd_rest d) R D j -> 0 <= D ->
+  128 <= R <= 255 -> Forall (fun p => 0 <= p <= 255) probs ->
+  8 + 7 * Z.of_nat (length probs) <= j ->
+  rfc_bits probs d = adec probs (R, D, j).
+Proof.
+  induction probs as [|p tl IH]; intros d R D j Hrel HD HR Hps Hj; [reflexivity|].
+  pose proof (Forall_inv Hps) as Hp. pose proof (Forall_inv_tail Hps) as Htl.
+  pose proof (read_bool_refines d R D j p Hrel HD HR Hp) as Hstep.
+  cbn [rfc_bits adec]. cbn [length] in Hj.
+  destruct (aget p (R, D, j)) as [b [[R2 D2] j2]] eqn:Ea.
+  assert (Hj2 : j - 7 <= j2).
+  { unfold aget in Ea. set (R1 := if nsplit R p * 2 ^ j <=? D then R - nsplit R p else nsplit R p) in *.
+    pose proof (nsplit_bounds R p HR Hp) as Hs.
+    assert (HR1 : 1 <= R1 <= 255) by (unfold R1; destruct (nsplit R p * 2 ^ j <=? D); lia).
+    pose proof (proj2 (norm_range R1 HR1)) as Hsh.
+    destruct (norm_loop 8 R1 0) as [r2 sh]. cbn [snd] in Hsh. injection Ea as _ _ _ <-. lia. }
+  destruct (Hstep ltac:(lia)) as (d' & E1 & Hrel2 & HD2 & HR2 & _).
+  rewrite E1. f_equal. apply IH; try assumption. lia.
+Qed.
+
+(** initial state of the RFC decoder on at least two bytes *)
+Lemma bd_init_rel a b rest : is_byte a -> is_byte b -> Forall is_byte rest ->
+  bval (a :: b :: rest) < 255 * 2 ^ (8 * Z.of_nat (length rest) + 8) ->
+  let d := bd_init (a :: b :: rest) in
+  drel (bd_value d) (bd_range d) (bd_count d) (bd_rest d) 255 (bval (a :: b :: rest))
+       (8 * Z.of_nat (length rest) + 8) /\ 0 <= bval (a :: b :: rest).
+Proof.
+  intros Ha Hb Hr Hlt. cbn [bd_init bd_value bd_range bd_count bd_rest].
+  pose proof (bval_bound rest Hr) as HF. unfold is_byte in *.
+  split.
+  - split; [reflexivity|]. split; [lia|]. split; [exact Hr|].
+    exists (a * 256 + b). change (2 ^ 0) with 1.
+    cbn [bval length] in *.
+    replace (8 * Z.of_nat (S (length rest))) with (8 + 8 * Z.of_nat (length rest)) in * by lia.
+    rewrite Z.pow_add_r in * by lia. change (2 ^ 8) with 256 in *.
+    repeat split; try lia; try ring;
+      try (replace (8 * Z.of_nat (length rest) + 8 - 0) with (8 * Z.of_nat (length rest) + 8) by lia;
+           rewrite Z.pow_add_r by lia; change (2 ^ 8) with 256; lia).
+  - cbn [bval length].
+    assert (0 < 2 ^ (8 * Z.of_nat (S (length rest)))) by (apply Z.pow_pos_nonneg; lia).
+    assert (0 < 2 ^ (8 * Z.of_nat (length rest))) by (apply Z.pow_pos_nonneg; lia). nia.
 Qed.
